@@ -2,6 +2,7 @@
 
 pub mod alloc;
 pub mod args;
+pub mod c03lab;
 pub mod httplab;
 pub mod httpref;
 pub mod json;
